@@ -82,7 +82,7 @@ func bookkeeping(c Case, r *result, u *vf.Unit) {
 			}
 		}
 	}
-	if c.keepAliveOn() && c.AtMs >= 5*c.negIdle() {
+	if c.aliveGuaranteed() && c.AtMs >= 5*c.negIdle() {
 		u.Class("keepalive-5-idle-periods")
 	}
 	u.Class(fmt.Sprintf("blocked-calls:%d", min(blocked, 6)))
@@ -137,7 +137,7 @@ func TestOne(t *testing.T) {
 	for i := 0; i < n; i++ {
 		if v := vf.Guard("end-matrix", func() *vf.Verdict { return checkCase(c, vf.Scratch()) }); v != nil {
 			bad++
-			if bad <= 2 {
+			if bad <= 2 || os.Getenv("VERIF_C17_ALL") != "" {
 				t.Logf("run %d: %s: %s", i, v.Sig, v.Detail)
 			}
 		}
